@@ -96,9 +96,29 @@ func (c *MemConn) PeerClosed() bool { return c.in.closed }
 //go:norace
 func (c *MemConn) IsClosed() bool   { return c.closed }
 
+// SendBuffer > 0: a Write blocks while the peer has that many unread bytes (a client that does
+// not read its replies); 0: writes never block. Reset by ResetNet.
+var SendBuffer int
+
+//go:norace
+func (c *MemConn) writable() bool {
+	if SendBuffer <= 0 || c.closed || c.out.closed {
+		return true
+	}
+	n := 0
+	for _, s := range c.out.segs {
+		n += len(s)
+	}
+	return n < SendBuffer
+}
+
 //go:norace
 func (c *MemConn) Write(p []byte) (int, error) {
-	rt.Point(rt.OpIO, c.pipe, nil)
+	if SendBuffer > 0 {
+		rt.Point(rt.OpIO, c.pipe, c.writable)
+	} else {
+		rt.Point(rt.OpIO, c.pipe, nil)
+	}
 	if c.closed {
 		return 0, &realnet.OpError{Op: "write", Net: "tcp", Err: ErrClosed}
 	}
@@ -161,7 +181,7 @@ var nextClientPort = 40000
 
 // ResetNet forgets all listeners (harness: start of an execution).
 //go:norace
-func ResetNet() { ports = map[int]*MemListener{}; nextClientPort = 40000 }
+func ResetNet() { ports = map[int]*MemListener{}; nextClientPort = 40000; SendBuffer = 0 }
 
 // PortBound reports whether a live listener owns the port.
 //go:norace
